@@ -293,14 +293,16 @@ pub fn oracle_soname(b: &[u8]) -> Option<Vec<u8>> {
     let h = header(b)?;
     let es = if h.b64 { 16 } else { 8 };
     let ws = es / 2;
+    // a dynamic array ends with DT_NULL; one that does not within its declared size is not well-formed: no answer
     let scan = |dy: &[u8]| -> (Option<u64>, Option<u64>, Option<u64>) {
         let (mut so, mut st, mut sz) = (None, None, None);
+        let mut terminated = false;
         for ch in dy.chunks_exact(es) {
             let tag = rd(ch, 0, ws).unwrap();
             let val = rd(ch, ws as u64, ws).unwrap();
-            match tag { 0 => break, 14 => so = Some(val), 5 => st = Some(val), 10 => sz = Some(val), _ => {} }
+            match tag { 0 => { terminated = true; break } 14 => so = Some(val), 5 => st = Some(val), 10 => sz = Some(val), _ => {} }
         }
-        (so, st, sz)
+        if terminated { (so, st, sz) } else { (None, None, None) }
     };
     for p in phdrs(b, &h) {
         if p.ty == 2 {
